@@ -26,30 +26,24 @@ impl Buffer {
         Self::from_vec(self.to_vec())
     }
 
-    pub fn from_vec(mut vec: Vec<u8>) -> Self {
+    pub fn from_vec(vec: Vec<u8>) -> Self {
         if vec.is_empty() {
             return Self::default();
         }
 
-        let len = vec.len();
-        let data = vec.as_mut_ptr();
+        // The buffer is released as a boxed slice of `len` bytes (see into_vec): the allocation
+        // must have exactly this size, a vec can have a bigger capacity
+        let mut boxed = vec.into_boxed_slice();
+        let len = boxed.len();
+        let data = boxed.as_mut_ptr();
 
-        core::mem::forget(vec);
+        core::mem::forget(boxed);
 
         Buffer { data, len }
     }
 
-    pub fn from_string(mut str: String) -> Self {
-        if str.is_empty() {
-            return Self::default();
-        }
-
-        let len = str.len();
-        let data = str.as_mut_ptr();
-
-        core::mem::forget(str);
-
-        Buffer { data, len }
+    pub fn from_string(str: String) -> Self {
+        Self::from_vec(str.into_bytes())
     }
 
     pub fn to_vec(&self) -> Vec<u8> {
@@ -57,13 +51,11 @@ impl Buffer {
             return Vec::new();
         }
 
-        let mut target: Vec<u8> = Vec::new();
         // Safety: data is a valid pointer to a buffer of length len aligned
         // This is guaranteed by exposed API to construct this struct
         let buffer = unsafe { std::slice::from_raw_parts(self.data, self.len) };
 
-        target.clone_from_slice(buffer);
-        target
+        buffer.to_vec()
     }
 
     pub fn into_vec(self) -> Vec<u8> {
